@@ -251,7 +251,8 @@ func c19Judge(t *rapid.T, st *vstats.Collector, q *c19Query, ex c19Expect,
 		var rest []c19Violation
 		for _, v := range viol {
 			switch {
-			case v.Rule == "max_htlc" && q.isBlinded() &&
+			case v.Rule == "max_htlc" &&
+				strings.Contains(v.Msg, "(blinded)") &&
 				c19IsKnown(c19KnownBlindedMax):
 
 				st.Known(c19KnownBlindedMax)
